@@ -114,6 +114,13 @@ func init() {
 		fr.i.ps.signs++
 		return tuple{sig, iface{}}
 	}
+	// length of a real PKCS#1 RSAPrivateKey for a modulus of that many bits
+	pkcs1Len := func(bits int) int {
+		if l := bits*9/16 + 40; l > 16 {
+			return l
+		}
+		return 16
+	}
 	stubs["crypto/x509.MarshalPKCS1PrivateKey"] = func(fr *frame, args []value) value {
 		priv := (*args[0].(*value)).(structure)
 		n := bigFromValue(priv[0].(structure)[0].(*value))
@@ -122,6 +129,11 @@ func init() {
 		out = append(out, byte(n.BitLen()>>8), byte(n.BitLen()))
 		idb, _ := valuesToBytes(keyIDBytes(d))
 		out = append(out, idb...)
+		// as long as the real encoding (n, d, p, q, dp, dq, qinv), so that the
+		// size of a modelled key file is the size of a real one
+		for len(out) < pkcs1Len(n.BitLen()) {
+			out = append(out, 0x5a)
+		}
 		return bytesToValues(out)
 	}
 	stubs["crypto/x509.ParsePKCS1PrivateKey"] = func(fr *frame, args []value) value {
@@ -131,11 +143,19 @@ func init() {
 			panic(unsupported("ParsePKCS1PrivateKey on symbolic bytes"))
 		}
 		privT := mustDeref(fr.fn.Signature.Results().At(0).Type())
-		if len(bs) != 16 || string(bs[:6]) != "RSAKEY" {
+		bad := len(bs) < 16 || string(bs[:6]) != "RSAKEY"
+		bits := 0
+		if !bad {
+			bits = int(bs[6])<<8 | int(bs[7])
+			bad = len(bs) != pkcs1Len(bits)
+			for _, c := range bs[16:] {
+				bad = bad || c != 0x5a
+			}
+		}
+		if bad {
 			return tuple{(*value)(nil), i.errorFromString("x509: failed to parse RSA private key")}
 		}
-		bits := int(bs[6])<<8 | int(bs[7])
-		id := new(big.Int).SetBytes(bs[8:])
+		id := new(big.Int).SetBytes(bs[8:16])
 		n := new(big.Int).Add(new(big.Int).Lsh(big.NewInt(1), uint(bits-1)), id)
 		bt := i.bigIntType()
 		priv := zero(privT).(structure)
